@@ -105,7 +105,12 @@ func (ex *Exec) evalExpr(st *State, e ast.Expr) Val {
 			ex.boundsCheck(st, idx, s.Len, n)
 			return s.elemAt(idx)
 		case *ObjV:
+			// maps (and other opaque containers): the contents are abstract — a read yields an unconstrained value,
+			// which over-approximates every history of writes, by this or by any other goroutine
 			ex.note("index of opaque %s at %s modelled as uninterpreted", s.K.Name, ex.pos(n))
+			if tup, isTuple := ex.info.TypeOf(n).(*types.Tuple); isTuple && tup.Len() == 2 {
+				return &TupleV{[]Val{ex.freshVal(st, kindOf(tup.At(0).Type()), "idx"), SV{T: Fresh("ok", SBool)}}}
+			}
 			return ex.freshVal(st, kindOf(ex.info.TypeOf(n)), "idx")
 		}
 		panic(unsupported("index of %T at %s", x, ex.pos(n)))
@@ -539,6 +544,17 @@ func (ex *Exec) evalComposite(st *State, n *ast.CompositeLit, t types.Type) Val 
 		}
 		return &ObjV{K: k, ID: Fresh("lit."+shortName(k.Name), SInt), Ghost: g}
 	}
+	if _, isMap := t.Underlying().(*types.Map); isMap {
+		for _, e := range n.Elts {
+			if kv, ok := e.(*ast.KeyValueExpr); ok {
+				ex.evalExpr(st, kv.Key)
+				if _, nested := kv.Value.(*ast.CompositeLit); !nested {
+					ex.evalExpr(st, kv.Value)
+				}
+			}
+		}
+		return &ObjV{K: k, ID: Fresh("make."+k.Name, SInt), Ghost: map[string]Val{}}
+	}
 	panic(unsupported("composite literal of kind %s at %s", k, ex.pos(n)))
 }
 
@@ -713,6 +729,12 @@ func (ex *Exec) globalInit(st *State, o *types.Var) Val {
 		// tell which one was passed (global("binary.BigEndian")); nothing else is known about it
 		fv := ex.freshVal(st, k, name).(*ObjV)
 		return &ObjV{K: fv.K, ID: Var(name, SInt), Ghost: fv.Ghost}
+	}
+	if k.K == "err" && ex.prog.ByPath[o.Pkg().Path()] == nil {
+		// a library's sentinel error (http.ErrServerClosed, io.EOF, …): a named non-nil constant
+		t := Var(name, SInt)
+		st.assume(Not(Eq(t, Zero)))
+		return SV{T: t}
 	}
 	ex.note("package-level variable %s modelled as an unconstrained value", name)
 	return ex.freshVal(st, k, name)
@@ -1296,8 +1318,24 @@ func (ex *Exec) evalBuiltin(st *State, call *ast.CallExpr, name string) Val {
 		ex.storeSliceInPlace(st, dref, d, &nd, call)
 		return SV{T: n}
 	case "panic":
-		ex.oblige(st, "unreachable-panic", ex.site("panic"), False, call)
+		// assert@before:panic e — the contract allows this panic, but only in states where e holds
+		allowed := false
+		for _, a := range ex.ct.Asserts {
+			if a.Name == "before:panic" && (a.Mode == "" || a.Mode == ex.mode) {
+				allowed = true
+			}
+		}
+		if allowed {
+			ex.ghostAsserts([]*State{st}, "before:panic", call.Pos(), call)
+		} else {
+			ex.oblige(st, "unreachable-panic", ex.site("panic"), False, call)
+		}
 		panic(abortPath{})
+	case "delete":
+		// map contents are abstract (reads are unconstrained): a deletion changes nothing that is modelled
+		ex.evalExpr(st, call.Args[0])
+		ex.evalExpr(st, call.Args[1])
+		return SV{T: Zero}
 	case "close":
 		ch := ex.evalExpr(st, call.Args[0]).(*ObjV)
 		ex.traceEvent(st, "close", ch.ID)
